@@ -44,6 +44,20 @@ pub struct Cfg10 {
     /// the last tenant is added to the key file only at the first restart
     #[serde(default)]
     pub late_tenant: bool,
+    /// the late tenant is the one whose name sorts first (so that registration order and name order differ)
+    #[serde(default)]
+    pub late_first: bool,
+}
+
+impl Cfg10 {
+    /// index (into TENANTS) of the tenant that is added at the first restart
+    pub fn late_idx(&self) -> usize {
+        if self.late_first {
+            0
+        } else {
+            self.n_tenants - 1
+        }
+    }
 }
 fn default_capacity() -> usize {
     400
@@ -61,6 +75,10 @@ pub struct Plan {
     pub cfg: Cfg10,
     pub steps: Vec<Step>,
     pub env_seed: u64,
+    /// storage damage to the tenant-index map file found by the n-th restart (0 = none, 1 = cut in half, 2 = emptied,
+    /// 3 = first byte overwritten): a server that cannot read the map must not start with a guessed one
+    #[serde(default)]
+    pub map_damage: Vec<u8>,
 }
 
 #[derive(Clone, Debug, Serialize, Deserialize)]
@@ -228,6 +246,7 @@ pub fn gen_plan(seed: u64, run: u64, tier: &str) -> Plan {
         capacity: *rng.pick(&[400usize, 400, 10, 16]),
         two_keys: None,
         late_tenant: false,
+        late_first: false,
     };
     let mut cfg = cfg;
     if rng.chance(1, 3) {
@@ -235,6 +254,7 @@ pub fn gen_plan(seed: u64, run: u64, tier: &str) -> Plan {
     }
     if cfg.persist && rng.chance(1, 2) {
         cfg.late_tenant = true;
+        cfg.late_first = rng.chance(1, 2);
     }
     let cfg = cfg;
     let n = if tier == "thorough" { rng.range(10, 60) } else { rng.range(6, 32) } as usize;
@@ -277,8 +297,16 @@ pub fn gen_plan(seed: u64, run: u64, tier: &str) -> Plan {
         let at = rng.below(steps.len() as u64 / 2 + 1) as usize;
         steps.insert(at, Step::Restart);
     }
+    if cfg.late_tenant && rng.chance(1, 2) {
+        let at = steps.len() / 2 + rng.below(steps.len() as u64 / 2 + 1) as usize;
+        steps.insert(at.min(steps.len()), Step::Restart);
+    }
     let env_seed = rng.next();
-    Plan { cfg, steps, env_seed }
+    let restarts = steps.iter().filter(|s| matches!(s, Step::Restart)).count();
+    // not at the first restart (a late tenant is registered there): the damage meets a map whose registration
+    // order may differ from name order
+    let map_damage: Vec<u8> = (0..restarts).map(|r| if r > 0 && rng.chance(1, 2) { 1 + rng.below(3) as u8 } else { 0 }).collect();
+    Plan { cfg, steps, env_seed, map_damage }
 }
 
 // ------------------------------------------------------------------------------------------------ execution
@@ -287,7 +315,7 @@ pub fn server_cfg(c: &Cfg10, data_dir: Option<String>, aux_dir: String, late_ena
     let mut tenants = Vec::new();
     let mut keys = Vec::new();
     for (i, t) in TENANTS.iter().enumerate() {
-        let late = c.late_tenant && i + 1 == c.n_tenants;
+        let late = c.late_tenant && i == c.late_idx();
         let configured = (i < c.n_tenants && (!late || late_enabled)) || i == 3;
         let key = api_key(t, i as u64);
         keys.push(key.clone());
@@ -299,7 +327,7 @@ pub fn server_cfg(c: &Cfg10, data_dir: Option<String>, aux_dir: String, late_ena
     for (i, t) in TENANTS.iter().enumerate() {
         let key = api_key(t, 100 + i as u64);
         keys.push(key.clone());
-        let late = c.late_tenant && i + 1 == c.n_tenants;
+        let late = c.late_tenant && i == c.late_idx();
         if c.two_keys == Some(i) && i < c.n_tenants && (!late || late_enabled) {
             tenants.push(TenantSpec { id: t.to_string(), key, max_vectors: c.max_vectors, max_qps: 0, is_admin: false, enabled: true });
         }
@@ -344,6 +372,8 @@ pub struct World {
     pub truth: Vec<Option<Truth>>,
     pub tenant_index: Vec<Option<u32>>,
     pub quota: Vec<Vec<Option<usize>>>,
+    pub map_damage_tried: u64,
+    pub map_damage_accepted: u64,
 }
 
 /// which tenant a credential names (second keys are written 4 + tenant)
@@ -367,7 +397,7 @@ fn valid_tenant(c: &Cfg10, cred: &Cred, late_enabled: bool) -> Option<usize> {
     if raw >= 4 && c.two_keys != Some(t) {
         return None;
     }
-    if c.late_tenant && t + 1 == c.n_tenants && !late_enabled {
+    if c.late_tenant && t == c.late_idx() && !late_enabled {
         return None;
     }
     Some(t)
@@ -386,9 +416,10 @@ pub fn run_world(plan: &Plan, only: Option<usize>, tag: u64, want_truth: bool) -
     let _ = std::fs::create_dir_all(&data);
     let _ = std::fs::create_dir_all(&aux);
     let mut late_enabled = false;
+    let mut restart_no = 0usize;
     let (mut scfg, keys) = server_cfg(&plan.cfg, if plan.cfg.persist { Some(data.clone()) } else { None }, aux.clone(), late_enabled);
     let rt = rpc::paused_runtime();
-    let mut w = World { obs: Vec::new(), truth: Vec::new(), tenant_index: vec![], quota: vec![] };
+    let mut w = World { obs: Vec::new(), truth: Vec::new(), tenant_index: vec![], quota: vec![], map_damage_tried: 0, map_damage_accepted: 0 };
     let mut h = match Harness::start(&scfg) {
         Ok(h) => Some(h),
         Err(e) => {
@@ -401,7 +432,7 @@ pub fn run_world(plan: &Plan, only: Option<usize>, tag: u64, want_truth: bool) -
             .iter()
             .enumerate()
             .map(|(i, t)| {
-                let late = plan.cfg.late_tenant && i + 1 == plan.cfg.n_tenants;
+                let late = plan.cfg.late_tenant && i == plan.cfg.late_idx();
                 if i < plan.cfg.n_tenants && (!late || late_enabled) {
                     h.tenant_index(t)
                 } else {
@@ -450,13 +481,50 @@ pub fn run_world(plan: &Plan, only: Option<usize>, tag: u64, want_truth: bool) -
                     late_enabled = true;
                     scfg = server_cfg(&plan.cfg, if plan.cfg.persist { Some(data.clone()) } else { None }, aux.clone(), true).0;
                 }
-                match Harness::start(&scfg) {
-                    Ok(n) => {
-                        w.tenant_index = index_of(&n, late_enabled);
-                        h = Some(n);
-                        Obs::Restarted(Ok(()))
+                let kind = plan.map_damage.get(restart_no).copied().unwrap_or(0);
+                restart_no += 1;
+                if kind != 0 {
+                    // the restart finds a damaged tenant-index map: a start that fails is the expected answer (the file
+                    // is then put back and the server started again); a start that succeeds is judged by everything
+                    // that follows
+                    let map_path = format!("{}/tenant_map.json", aux);
+                    if let Ok(orig) = std::fs::read(&map_path) {
+                        let damaged: Vec<u8> = match kind {
+                            1 => orig[..orig.len() / 2].to_vec(),
+                            2 => Vec::new(),
+                            _ => {
+                                let mut d = orig.clone();
+                                if let Some(b) = d.first_mut() {
+                                    *b = b'#';
+                                }
+                                d
+                            }
+                        };
+                        let _ = std::fs::write(&map_path, &damaged);
+                        w.map_damage_tried += 1;
+                        match Harness::start(&scfg) {
+                            Ok(n) => {
+                                w.map_damage_accepted += 1;
+                                w.tenant_index = index_of(&n, late_enabled);
+                                h = Some(n);
+                            }
+                            Err(_) => {
+                                let _ = std::fs::write(&map_path, &orig);
+                            }
+                        }
                     }
-                    Err(e) => Obs::Restarted(Err(e.to_string())),
+                }
+                if h.is_some() {
+                    Obs::Restarted(Ok(()))
+                } else {
+                    match Harness::start(&scfg) {
+                        Ok(n) => {
+                            w.tenant_index = index_of(&n, late_enabled);
+                            h = Some(n);
+                            Obs::Restarted(Ok(()))
+                        }
+                        Err(e) => Obs::Restarted(Err(e.to_string())),
+                    }
                 }
             }
         };
@@ -1119,6 +1187,10 @@ pub fn execute(plan: &Plan) -> Exec {
         let mut ex = Exec { problems: vec![], steps: 0, per_rpc: BTreeMap::new(), probes: BTreeMap::new(), digest: 0 };
         let inter = run_world(&p, None, 0, true);
         ex.steps = inter.obs.len() as u64;
+        if inter.map_damage_tried > 0 {
+            *ex.probes.entry("restart_with_damaged_tenant_map".into()).or_insert(0) += inter.map_damage_tried;
+            *ex.probes.entry("damaged_tenant_map_refused".into()).or_insert(0) += inter.map_damage_tried - inter.map_damage_accepted;
+        }
         for (st, o) in p.steps.iter().zip(inter.obs.iter()) {
             if let (Step::Rpc(cred, r), Obs::Resp(resp)) = (st, o) {
                 *ex.per_rpc.entry(r.kind().to_string()).or_insert(0) += 1;
